@@ -40,11 +40,25 @@ def native(v):
     return v
 
 
+def native_dict(pb):
+    """a plain Python dict with the same content as the protobuf message (field names of the proto, nested dicts/lists)"""
+    out = {}
+    for f, v in pb.ListFields():
+        if f.type == f.TYPE_MESSAGE and f.message_type.GetOptions().map_entry:
+            vf = f.message_type.fields_by_name["value"]
+            out[f.name] = {k: (native_dict(x) if vf.type == vf.TYPE_MESSAGE else x) for k, x in v.items()}
+        elif f.label == f.LABEL_REPEATED:
+            out[f.name] = [native_dict(x) if f.type == f.TYPE_MESSAGE else x for x in v]
+        elif f.type == f.TYPE_MESSAGE:
+            out[f.name] = native_dict(v)
+        else:
+            out[f.name] = v
+    return out
+
+
 def to_plain_dict(cls, msg):
-    if hasattr(cls, "to_dict"):
-        return cls.to_dict(msg)
-    from google.protobuf import json_format
-    return json_format.MessageToDict(msg, preserving_proto_field_name=True)
+    pb = cls.pb(msg) if hasattr(cls, "pb") else msg
+    return native_dict(pb)
 
 
 def build_call(spec, is_async):
